@@ -74,6 +74,7 @@ type faultJ struct {
 	At    int    `json:"at"` // call index; len(calls) = Close
 	M     string `json:"m"`
 	Limit int64  `json:"limit,omitempty"`
+	Idx   int    `json:"idx,omitempty"` // rmup1: which entry of FILES_TMPNAMES is removed before Close
 }
 
 type caseJ struct {
@@ -474,6 +475,17 @@ func applyFault(f faultJ, at int, tx *corazawaf.Transaction, we *wafEnv, c cfgJ,
 		}
 		terms = append(terms, fail("ORemove", "TUpload", 1))
 		note = "rmup"
+	case "rmup1":
+		// exactly ONE registered upload file disappears before Close (a tmp cleaner): its Remove
+		// fails, every other entry must still be removed and the error reported
+		names := tx.Variables().FilesTmpNames().Get("")
+		keep := c.Keep == "on" || (c.Keep == "relevant" && c.LogRule && len(tx.Variables().TX().Get("e")) > 0 && tx.Variables().TX().Get("e")[0] == "1")
+		if f.Idx >= len(names) || !isClose || keep {
+			return nil, wrap, un, ""
+		}
+		os.Remove(names[f.Idx])
+		terms = append(terms, fmt.Sprintf("InjFailAt %d ORemove TUpload %d 1", at, f.Idx))
+		note = "rmup1"
 	case "auditdir":
 		away := we.auditDir + ".away"
 		if os.Rename(we.auditDir, away) != nil {
@@ -777,7 +789,7 @@ func oracles(c *caseJ, out *runOut, we *wafEnv, tx2 *corazawaf.Transaction, preT
 	// faults that hit Close come back from Close
 	closeFault := prev.Spilled && (hasFault(c, out, at, "hswap") || hasFault(c, out, at, "tmpdir") || hasFault(c, out, at, "rmspill"))
 	keep := c.Cfg.Keep == "on" || (c.Cfg.Keep == "relevant" && c.Cfg.LogRule && prev.E)
-	if !keep && prev.NTmp > 0 && (hasFault(c, out, at, "updir") || hasFault(c, out, at, "rmup")) {
+	if !keep && prev.NTmp > 0 && (hasFault(c, out, at, "updir") || hasFault(c, out, at, "rmup") || hasFault(c, out, at, "rmup1")) {
 		closeFault = true
 	}
 	if closeFault && out.fin.Ok {
@@ -995,11 +1007,12 @@ func caseTerm(c *caseJ, out *runOut) string {
 // ---- generation ---------------------------------------------------------------------------------
 
 type shape struct {
-	cfg   cfgJ
-	body  []byte
-	calls []callJ
-	pre   [2][]int
-	kind  string
+	cfg    cfgJ
+	body   []byte
+	calls  []callJ
+	pre    [2][]int
+	kind   string
+	nfiles int
 }
 
 func genShape(r *rand.Rand, i int) shape {
@@ -1014,7 +1027,8 @@ func genShape(r *rand.Rand, i int) shape {
 	tail := ""
 	switch s.cfg.Proc {
 	case "multipart":
-		nf := r.Intn(4)
+		nf := []int{2, 3, 1, 0, 3, 2}[((i/6)*3+i%6)%6]
+		s.nfiles = nf
 		var ps []partSpec
 		for j := 0; j < nf; j++ {
 			ps = append(ps, partSpec{File: true, Size: []int{0, 1, 7, 20, 33, 60}[r.Intn(6)]})
@@ -1083,6 +1097,18 @@ func genShape(r *rand.Rand, i int) shape {
 	if s.cfg.Mem > s.cfg.Limit {
 		s.cfg.Mem = s.cfg.Limit
 	}
+	// every sixth pair of shapes is a clean upload transaction (all uploads stored, deleting keep mode)
+	if s.cfg.Proc == "multipart" && i%6 < 2 && tail == "" {
+		s.cfg.Limit = int64(n + 1 + r.Intn(50))
+		s.cfg.Deny = 0
+		if s.cfg.Keep == "on" {
+			s.cfg.Keep = "off"
+		}
+		if s.cfg.Mem > s.cfg.Limit {
+			s.cfg.Mem = s.cfg.Limit
+		}
+		s.kind = fmt.Sprintf("multipart/%dfiles/clean", s.nfiles)
+	}
 	// calls
 	s.calls = append(s.calls, callJ{K: "h"})
 	left := n
@@ -1119,6 +1145,10 @@ func (s shape) faultsFor(r *rand.Rand, at int) []faultJ {
 	if at == len(s.calls) {
 		for _, m := range []string{"hswap", "tmpdir", "updir", "rmspill", "rmup"} {
 			fs = append(fs, faultJ{At: at, M: m})
+		}
+		// one chosen upload (first / middle / last) removed before Close
+		for idx := 0; idx < s.nfiles && idx < 3; idx++ {
+			fs = append(fs, faultJ{At: at, M: "rmup1", Idx: idx})
 		}
 		return fs
 	}
